@@ -319,6 +319,11 @@ Definition release_named (v : variant) (f : fam) (key : option N) (x : item) (s 
 (* ---------------------------------------------------------------- DHCPv4 local provider lease table *)
 Record lease := mkLease { l_ip : N; l_mac : N; l_sid : N; l_pool : option N; l_exp : bool }.
 (* a subscriber session (defined here because the opdb store below keeps session images) *)
+(* PPPoE, DHCPv6 over PPP (internal/pppoe/dhcpv6.go): the allocation context's IPv6 address / prefix - what ResolveV6
+   re-stakes or allocates; it is NOT cleared when a RELEASE unbinds the session's recorded IPv6Address / IPv6Prefix -
+   and whether the session has recorded the client's DUID. *)
+Record pppx := mkX { x_c6 : option N; x_cd : option item; x_du : bool }.
+Definition nox : pppx := mkX None None false.
 Record sess := mkSess {
   s_id : N; s_ppp : bool; s_prof4 : option N; s_prof6 : option N; s_mac : N;
   s_live : bool;
@@ -331,7 +336,8 @@ Record sess := mkSess {
   s_told : option N;           (* PPPoE: IPCP peer address; IPoE: yiaddr of the last OFFER/ACK *)
   s_ipcp : bool;               (* PPPoE: an IPCP Configure-Request has been processed;
                                   IPoE: the session knows the client's DUID (a DHCPv6 SOLICIT was seen) *)
-  s_b4 : option N; s_b6 : option N; s_bd : option item       (* IPoE: bound (ACKed / advertised) *)
+  s_b4 : option N; s_b6 : option N; s_bd : option item;      (* IPoE: bound (ACKed / advertised) *)
+  s_x : pppx                   (* PPPoE: DHCPv6 over PPP *)
 }.
 
 (* plugins/dhcp6/local lease tables (Resolved path).  Lease objects are immutable once created apart from their
@@ -507,7 +513,10 @@ Inductive op :=
 | IC (sid vrf : N) (s4 o4 s6 : option N) (spd : option item) (o6 od : option N)
 | IE (sid : N)       (* lease expiry: cleanupSessions reaps the session *)
 | HR (f : fam) (key : option N) (x : item) (sid : N)   (* HA sync: Reserve*InPool for a session of the peer node *)
-| HL (f : fam) (key : option N) (x : item) (sid : N).  (* HA sync: Release*InPool *)
+| HL (f : fam) (key : option N) (x : item) (sid : N)   (* HA sync: Release*InPool *)
+| PS (isreq : bool) (sid : N)   (* PPPoE, DHCPv6 over PPP: SOLICIT / REQUEST (internal/pppoe/dhcpv6.go forwardDHCPv6) *)
+| PR (sid : N)                  (* PPPoE, DHCPv6 over PPP: RELEASE *)
+| PX (sid : N).                 (* PPPoE teardown, after terminate: releaseDHCPv6Lease(DUID) *)
     (* component level: handleAAAResponse builds the allocator context from all AAA attributes before any pending
        packet is replayed (at function level ID / IS build it on first use, with their own family's attributes) *)
 
@@ -524,7 +533,9 @@ Inductive out :=
 | ORel6
 | ORestart
 | OIa
-| OHa (ok : bool).
+| OHa (ok : bool)
+| OPs (isreq : bool) (adv : option (option N * option item)) (rec6 : option N) (recd : option item)
+| OPr.
 
 Definition fallback_addr : N := 1681915905.   (* 100.64.0.1 *)
 
@@ -555,7 +566,7 @@ Definition oaddr (x : option item) : option N := option_map fst x.
 
 Definition set_live (s : sess) (b : bool) : sess :=
   mkSess (s_id s) (s_ppp s) (s_prof4 s) (s_prof6 s) (s_mac s) b (s_started s) (s_vrf s) (s_ov4 s) (s_ov6 s)
-         (s_ovd s) (s_a4 s) (s_a6 s) (s_ad s) (s_p4 s) (s_p6 s) (s_told s) (s_ipcp s) (s_b4 s) (s_b6 s) (s_bd s).
+         (s_ovd s) (s_a4 s) (s_a6 s) (s_ad s) (s_p4 s) (s_p6 s) (s_told s) (s_ipcp s) (s_b4 s) (s_b6 s) (s_bd s) (s_x s).
 
 (* PPPoE: onAuthResult(true, attrs) -> extractIPFromAttributes, buildAllocContext, startNCP *)
 Definition okopt {A} (ok : bool) (a : option A) : option A := if ok then a else None.
@@ -565,9 +576,10 @@ Definition pa_addr (v : variant) (a4 : option item) : option item :=
   | None => if d1 v then Some (addr_item fallback_addr) else None
   | Some i => if negb (d1 v) && (fst i =? 0) then None else a4
   end.
-Definition pa_sess (s : sess) (vrf : N) (ov4 ov6 : option N) (a4 a6 ad : option item) (p4 p6 : option N) : sess :=
+Definition pa_sess (s : sess) (vrf : N) (ov4 ov6 : option N) (a4 a6 ad : option item) (p4 p6 : option N) (x : pppx)
+  : sess :=
   mkSess (s_id s) true (s_prof4 s) (s_prof6 s) (s_mac s) true true vrf ov4 ov6 None
-         (oaddr a4) (oaddr a6) ad p4 p6 (oaddr a4) false None None None.
+         (oaddr a4) (oaddr a6) ad p4 p6 (oaddr a4) false None None None x.
 Definition pa_pd (v : variant) (spd : option item) (vrf sid : N) (r2 : reg) : list (reg * option item) :=
   match spd with
   | Some x => map (fun c : reg * bool => (fst c, okopt (snd c) (Some x))) (reserve_cont v FD x vrf sid r2)
@@ -594,7 +606,10 @@ Definition step_pa (v : variant) (st : state) (s : sess) (vrf : N) (s4 s6 : opti
         let a4' := pa_addr v (okopt ok4 a4) in
         let p4' := match p4 with Some _ => p4 | None => s_p4 s end in
         let p6' := match p6 with Some _ => p6 | None => s_p6 s end in
-        (mkState (fst cd) (put_sess (pa_sess s vrf ov4 ov6 a4' (okopt ok6 a6) (snd cd) p4' p6') (st_sess st)) (st_prov st),
+        (* the fresh allocation context: the AAA attributes, and the address allocateIANAFromPool hands to it *)
+        let c6 := match s6 with Some _ => s6 | None => match s_a6 s with None => oaddr a6 | Some _ => None end end in
+        (mkState (fst cd) (put_sess (pa_sess s vrf ov4 ov6 a4' (okopt ok6 a6) (snd cd) p4' p6'
+                                             (mkX c6 spd (x_du (s_x s)))) (st_sess st)) (st_prov st),
          OPa (oaddr a4') (oaddr (okopt ok6 a6)) (snd cd) p4' p6' (oaddr a4'))) (pa_pd v curd vrf (s_id s) r2)
       end)
     end).
@@ -606,7 +621,7 @@ Definition step_pa (v : variant) (st : state) (s : sess) (vrf : N) (s4 s6 : opti
    startNCP stays the recorded one. *)
 Definition pi_upd (s : sess) (a4 : option N) (opened : bool) : sess :=
   mkSess (s_id s) true (s_prof4 s) (s_prof6 s) (s_mac s) (s_live s) true (s_vrf s) (s_ov4 s) (s_ov6 s)
-         (s_ovd s) a4 (s_a6 s) (s_ad s) (s_p4 s) (s_p6 s) (s_told s) opened None None None.
+         (s_ovd s) a4 (s_a6 s) (s_ad s) (s_p4 s) (s_p6 s) (s_told s) opened None None None (s_x s).
 Definition pi_res (st : state) (s : sess) (a4 : option N) (r : pires) : list (state * out) :=
   let opened := match r with PiAck _ => true | _ => false end in
   [(mkState (st_reg st) (put_sess (pi_upd s a4 opened) (st_sess st)) (st_prov st), OPi r a4)].
@@ -655,7 +670,7 @@ Definition id_ctx (s : sess) (vrf : N) (s4 o4 : option N) : sess :=
     mkSess (s_id s) false (s_prof4 s) (s_prof6 s) (s_mac s) true true vrf
            (match s_prof4 s with Some _ => o4 | None => None end) None None
            (match s_prof4 s with Some _ => s4 | None => None end) None None None None None false
-           None None None.
+           None None None (s_x s).
 (* The IPoE component hands the packet to the provider even when resolution failed (Resolved = nil).  The
    provider then answers from its lease table: DISCOVER -> OFFER of the MAC's existing lease; REQUEST -> ACK
    (and renewal) when the requested address (option 50) equals the MAC's lease.  Nothing is reserved in the
@@ -691,7 +706,7 @@ Definition unresolved (v : variant) (r : reg) (pr : prov) (s0 : sess) (isreq : b
   else None.
 Definition told_sess (s : sess) (x : N) (bind : bool) : sess :=
   mkSess (s_id s) false (s_prof4 s) (s_prof6 s) (s_mac s) true true (s_vrf s) (s_ov4 s) (s_ov6 s) (s_ovd s)
-         (s_a4 s) (s_a6 s) (s_ad s) None None (Some x) (s_ipcp s) (if bind then Some x else s_b4 s) (s_b6 s) (s_bd s).
+         (s_a4 s) (s_a6 s) (s_ad s) None None (Some x) (s_ipcp s) (if bind then Some x else s_b4 s) (s_b6 s) (s_bd s) (s_x s).
 Definition id_nil (v : variant) (st : state) (r : reg) (s : sess) (isreq bind : bool) (rq : option N)
   : list (state * out) :=
   match unresolved v r (st_prov st) s isreq rq with
@@ -710,7 +725,7 @@ Definition step_id_core (v : variant) (st : state) (s0 : sess) (isreq bind : boo
       match c with (r1, a4, pk, ok) =>
       let s1 := mkSess (s_id s0) false (s_prof4 s0) (s_prof6 s0) (s_mac s0) true true (s_vrf s0) (s_ov4 s0)
                        (s_ov6 s0) (s_ovd s0) (oaddr a4) (s_a6 s0) (s_ad s0) None None (s_told s0) (s_ipcp s0)
-                       (s_b4 s0) (s_b6 s0) (s_bd s0) in
+                       (s_b4 s0) (s_b6 s0) (s_bd s0) (s_x s0) in
       match (if ok then oaddr a4 else None) with
       | None => id_nil v st r1 s1 isreq bind rq
       | Some x =>
@@ -718,7 +733,7 @@ Definition step_id_core (v : variant) (st : state) (s0 : sess) (isreq bind : boo
           | (pr', r2, true) =>
               let s2 := mkSess (s_id s1) false (s_prof4 s1) (s_prof6 s1) (s_mac s1) true true (s_vrf s1)
                                (s_ov4 s1) (s_ov6 s1) (s_ovd s1) (s_a4 s1) (s_a6 s1) (s_ad s1) None None (Some x)
-                               (s_ipcp s1) (if bind then Some x else s_b4 s1) (s_b6 s1) (s_bd s1) in
+                               (s_ipcp s1) (if bind then Some x else s_b4 s1) (s_b6 s1) (s_bd s1) (s_x s1) in
               (* handleAck checkpoints the session *)
               [(mkState r2 (put_sess s2 (st_sess st)) (if bind then ckpt pr' s2 else pr'), OId isreq (IdTold x) (s_a4 s2))]
           | (pr', r2, false) => [(mkState r2 (put_sess s1 (st_sess st)) pr', OId isreq IdErr (s_a4 s1))]
@@ -737,7 +752,7 @@ Definition is_ctx (s : sess) (vrf : N) (s6 : option N) (spd : option item) (o6 o
            (match s_prof6 s with Some _ => od | None => None end)
            None (match s_prof6 s with Some _ => s6 | None => None end)
            (match s_prof6 s with Some _ => spd | None => None end) None None None false
-           None None None.
+           None None None (s_x s).
 Definition ic_ctx (s : sess) (vrf : N) (s4 o4 s6 : option N) (spd : option item) (o6 od : option N) : sess :=
   mkSess (s_id s) false (s_prof4 s) (s_prof6 s) (s_mac s) true true vrf
          (match s_prof4 s with Some _ => o4 | None => None end)
@@ -746,15 +761,15 @@ Definition ic_ctx (s : sess) (vrf : N) (s4 o4 s6 : option N) (spd : option item)
          (match s_prof4 s with Some _ => s4 | None => None end)
          (match s_prof6 s with Some _ => s6 | None => None end)
          (match s_prof6 s with Some _ => spd | None => None end) None None None (s_ipcp s)
-         None None None.
+         None None None (s_x s).
 (* handleDHCPv6Solicit records the client's DUID in the session (handleDHCPv6Request does not) *)
 Definition mark_duid (isreq : bool) (s : sess) : sess :=
   if isreq then s else
   mkSess (s_id s) (s_ppp s) (s_prof4 s) (s_prof6 s) (s_mac s) (s_live s) (s_started s) (s_vrf s) (s_ov4 s) (s_ov6 s)
-         (s_ovd s) (s_a4 s) (s_a6 s) (s_ad s) (s_p4 s) (s_p6 s) (s_told s) true (s_b4 s) (s_b6 s) (s_bd s).
+         (s_ovd s) (s_a4 s) (s_a6 s) (s_ad s) (s_p4 s) (s_p6 s) (s_told s) true (s_b4 s) (s_b6 s) (s_bd s) (s_x s).
 Definition is_mk (s0 : sess) (a6 : option N) (ad : option item) (b6 : option N) (bd : option item) : sess :=
   mkSess (s_id s0) false (s_prof4 s0) (s_prof6 s0) (s_mac s0) true true (s_vrf s0) (s_ov4 s0) (s_ov6 s0)
-         (s_ovd s0) (s_a4 s0) a6 ad None None (s_told s0) (s_ipcp s0) (s_b4 s0) b6 bd.
+         (s_ovd s0) (s_a4 s0) a6 ad None None (s_told s0) (s_ipcp s0) (s_b4 s0) b6 bd (s_x s0).
 Definition step_is_core (v : variant) (st : state) (s0 : sess) (isreq : bool) : list (state * out) :=
   match s_prof6 s0 with
   | None => [(mkState (st_reg st) (put_sess s0 (st_sess st)) (st_prov st), OIs isreq None false (s_a6 s0) (s_ad s0))]
@@ -796,6 +811,77 @@ Definition step_is (v : variant) (st : state) (s : sess) (isreq : bool) (vrf : N
            (o6 od : option N) : list (state * out) :=
   step_is_core v st (mark_duid isreq (is_ctx s vrf s6 spd o6 od)) isreq.
 
+(* ---------------------------------------------------------------- PPPoE: DHCPv6 over PPP (internal/pppoe/dhcpv6.go)
+   forwardDHCPv6 calls dhcp.ResolveV6 on the session's allocation context for EVERY message type: an address / prefix
+   the context has is re-staked (a conflict: not resolved), a missing one is allocated and stored in the context.
+   Result: registry, context address, context prefix, and - when resolved - (IA_NA, IA_PD, pool names). *)
+Definition with_x (s : sess) (x : pppx) (a6 : option N) (ad : option item) : sess :=
+  mkSess (s_id s) (s_ppp s) (s_prof4 s) (s_prof6 s) (s_mac s) (s_live s) (s_started s) (s_vrf s) (s_ov4 s) (s_ov6 s)
+         (s_ovd s) (s_a4 s) a6 ad (s_p4 s) (s_p6 s) (s_told s) (s_ipcp s) (s_b4 s) (s_b6 s) (s_bd s) x.
+Definition pr_sess (s : sess) (x : pppx) : sess :=
+  mkSess (s_id s) (s_ppp s) (s_prof4 s) (s_prof6 s) (s_mac s) (s_live s) (s_started s) (s_vrf s) (s_ov4 s) (s_ov6 s)
+         (s_ovd s) (s_a4 s) None None (s_p4 s) (s_p6 s) (s_told s) (s_ipcp s) None None None x.
+Definition resolve6 (v : variant) (s : sess) (r : reg)
+  : list (reg * option N * option item * option (option N * option item * option N * option N)) :=
+  let x := s_x s in
+  match s_prof6 s with
+  | None => [(r, x_c6 x, x_cd x, None)]
+  | Some _ =>
+      bindl (acquire v F6 (s_prof6 s) (s_ov6 s) (s_vrf s) (s_id s) (oitem (x_c6 x)) r) (fun c6 =>
+        match c6 with (r1, a6, k6, ok6) =>
+        if negb ok6 then [(r1, x_c6 x, x_cd x, None)]
+        else map (fun cd : reg * option item * option N * bool =>
+                    match cd with (r2, ad, kd, okd) =>
+                    if negb okd then (r2, oaddr a6, x_cd x, None)
+                    else match a6, ad with
+                         | None, None => (r2, None, None, None)
+                         | _, _ => (r2, oaddr a6, ad, Some (oaddr a6, ad, k6, kd))
+                         end
+                    end) (acquire v FD (s_prof6 s) (s_ovd s) (s_vrf s) (s_id s) (x_cd x) r1)
+        end)
+  end.
+(* SOLICIT -> ADVERTISE, REQUEST -> REPLY; only the REPLY binds (bindDHCPv6: IPv6Address / IPv6Prefix := the REPLY's).
+   Not resolved: NO answer - this is the Repaired behaviour and what the IPoE component does since d5fadd1; the
+   PPPoE path of /repo still hands the packet to the provider (finding, not a model variant: see notes). *)
+Definition step_ps (v : variant) (st : state) (s : sess) (isreq : bool) : list (state * out) :=
+  map (fun c : reg * option N * option item * option (option N * option item * option N * option N) =>
+         match c with (r2, c6, cd, res) =>
+         let x' := mkX c6 cd true in
+         match res with
+         | None => (mkState r2 (put_sess (with_x s x' (s_a6 s) (s_ad s)) (st_sess st)) (st_prov st),
+                    OPs isreq None (s_a6 s) (s_ad s))
+         | Some (a6, ad, k6, kd) =>
+             match prov6_resolved (p6 (st_prov st)) (s_id s) (s_mac s) isreq a6 ad k6 kd with
+             | (q', true) =>
+                 let s' := if isreq then with_x s x' a6 ad else with_x s x' (s_a6 s) (s_ad s) in
+                 (mkState r2 (put_sess s' (st_sess st)) (with_p6 (st_prov st) q'),
+                  OPs isreq (Some (a6, ad)) (s_a6 s') (s_ad s'))
+             | (q', false) =>
+                 (mkState r2 (put_sess (with_x s x' (s_a6 s) (s_ad s)) (st_sess st)) (with_p6 (st_prov st) q'),
+                  OPs isreq None (s_a6 s) (s_ad s))
+             end
+         end
+         end) (resolve6 v s (st_reg st)).
+(* RELEASE: ResolveV6 first (as for every message), the provider drops its leases (registry release by the pool names
+   they recorded), unbindDHCPv6 releases the recorded address and prefix by address and clears them; the allocation
+   context keeps its address and prefix *)
+Definition step_pr (v : variant) (st : state) (s : sess) : list (state * out) :=
+  bindl (resolve6 v s (st_reg st)) (fun c =>
+    match c with (r2, c6, cd, _) =>
+    let '(q1, r3) := prov6_release v (p6 (st_prov st)) r2 (s_mac s) (s_id s) in
+    let r6s := match s_a6 s with
+               | Some a => release_ip v F6 (addr_item a) (s_vrf s) (s_id s) r3
+               | None => [r3]
+               end in
+    bindl r6s (fun r4 =>
+      let rds := match s_ad s with
+                 | Some x => release_ip v FD x (s_vrf s) (s_id s) r4
+                 | None => [r4]
+                 end in
+      map (fun r5 => (mkState r5 (put_sess (pr_sess s (mkX c6 cd true)) (st_sess st))
+                              (with_p6 (st_prov st) q1), OPr)) rds)
+    end).
+
 (* IPoE full-release sequences.  ir: the DHCPv4 provider's ReleaseLease(mac) runs; r6: the DHCPv6 provider's
    ReleaseLease(duid) runs.
      handleRelease (DHCPRELEASE, session deleted):  ir = true,  r6 = the session recorded a DUID
@@ -828,10 +914,10 @@ Definition step_rel (v : variant) (st : state) (s : sess) (ir r6 : bool) : list 
    and is checkpointed *)
 Definition drop4 (s : sess) : sess :=
   mkSess (s_id s) (s_ppp s) (s_prof4 s) (s_prof6 s) (s_mac s) (s_live s) (s_started s) (s_vrf s) (s_ov4 s) (s_ov6 s)
-         (s_ovd s) (s_a4 s) (s_a6 s) (s_ad s) (s_p4 s) (s_p6 s) None (s_ipcp s) None (s_b6 s) (s_bd s).
+         (s_ovd s) (s_a4 s) (s_a6 s) (s_ad s) (s_p4 s) (s_p6 s) None (s_ipcp s) None (s_b6 s) (s_bd s) (s_x s).
 Definition drop6 (s : sess) : sess :=
   mkSess (s_id s) (s_ppp s) (s_prof4 s) (s_prof6 s) (s_mac s) (s_live s) (s_started s) (s_vrf s) (s_ov4 s) (s_ov6 s)
-         (s_ovd s) (s_a4 s) (s_a6 s) (s_ad s) (s_p4 s) (s_p6 s) (s_told s) (s_ipcp s) (s_b4 s) None None.
+         (s_ovd s) (s_a4 s) (s_a6 s) (s_ad s) (s_p4 s) (s_p6 s) (s_told s) (s_ipcp s) (s_b4 s) None None (s_x s).
 Definition v6bound (s : sess) : bool :=
   match s_b6 s, s_bd s with None, None => false | _, _ => true end.
 Definition step_rel4p (v : variant) (st : state) (s : sess) : list (state * out) :=
@@ -865,7 +951,7 @@ Definition step_rel6 (v : variant) (st : state) (s : sess) : list (state * out) 
            end) rds).
 
 Definition new_sess (id : N) (ppp : bool) (prof4 prof6 : option N) (mac : N) : sess :=
-  mkSess id ppp prof4 prof6 mac true false 0 None None None None None None None None None false None None None.
+  mkSess id ppp prof4 prof6 mac true false 0 None None None None None None None None None false None None None nox.
 (* restart: registry, provider tables and sessions are gone; restoreSessions brings back every session that has
    an image (installInMemoryState re-reserves the image's addresses; a conflict is only logged: flag d8).
    PPPoE sessions are outside this model's restore and simply end. *)
@@ -891,7 +977,7 @@ Definition restore_one (v : variant) (st0 : list (N * sess)) (acc : reg * list s
       let '(r3, bd) := reserve_first v FD (s_bd im) (s_vrf im) (s_id s) r2 in
       (r3, done ++ [mkSess (s_id s) false (s_prof4 im) (s_prof6 im) (s_mac im) true true (s_vrf im) (s_ov4 im)
                            (s_ov6 im) (s_ovd im) (s_a4 im) (s_a6 im) (s_ad im) None None (oaddr b4) (s_ipcp im)
-                           (oaddr b4) (oaddr b6) bd])
+                           (oaddr b4) (oaddr b6) bd (s_x im)])
   end.
 Definition step_restart (v : variant) (st : state) : list (state * out) :=
   let r0 := mkReg (map reset_pool (pools (st_reg st))) [] in
@@ -970,6 +1056,24 @@ Definition step (v : variant) (st : state) (o : op) : list (state * out) :=
       match find_sess sid st with
       | Some _ => skip st
       | None => map (fun r' => (mkState r' (st_sess st) (st_prov st), OHa true)) (release_named v f key x sid (st_reg st))
+      end
+  | PS isreq sid =>
+      match find_sess sid st with
+      | Some s => if s_ppp s && s_live s && s_started s then step_ps v st s isreq else skip st
+      | None => skip st
+      end
+  | PR sid =>
+      match find_sess sid st with
+      | Some s => if s_ppp s && s_live s && s_started s then step_pr v st s else skip st
+      | None => skip st
+      end
+  | PX sid =>
+      match find_sess sid st with
+      | Some s => if s_ppp s && negb (s_live s) && x_du (s_x s)
+                  then let '(q1, r1) := prov6_release v (p6 (st_prov st)) (st_reg st) (s_mac s) (s_id s) in
+                       [(mkState r1 (st_sess st) (with_p6 (st_prov st) q1), OSkip)]
+                  else skip st
+      | None => skip st
       end
   | IE sid =>
       match find_sess sid st with
